@@ -193,6 +193,7 @@ class Aggregate(object):
         self.stats = collections.Counter()
         self.sets = collections.defaultdict(set)
         self.samples = []
+        self._sample_kinds = set()
         self.violations = []      # (i, violation, recorded trace)
         self.digests = {}
         self.harness = []
@@ -213,8 +214,13 @@ class Aggregate(object):
             self.stats[k] += v
         for k, v in r.get('sets', {}).items():
             self.sets[k].update(v)
-        if r.get('sample') is not None and len(self.samples) < 4 and (i % 7 == 0 or not self.samples):
-            self.samples.append(r['sample'])
+        if r.get('sample') is not None:
+            # keep a few samples of different character (plain / multi-threaded / faulted / fired)
+            smp = r['sample']
+            kind = (bool(smp.get('faults')), (smp.get('threads') or smp.get('clients') or 1) > 1, bool(smp.get('n_switches')))
+            if kind not in self._sample_kinds and len(self.samples) < 6:
+                self._sample_kinds.add(kind)
+                self.samples.append(smp)
         for v in r['violations']:
             self.violations.append((i, v, r.get('recorded')))
 
@@ -445,7 +451,7 @@ def _main_batch(check, args, tier, seed, t0):
         'evaluations': agg.evaluations,
         'distinct_nontrivial': len(agg.sigs),
         'rule': check.rule,
-        'samples': agg.samples[:4],
+        'samples': agg.samples[:6],
         'runs_requested': nruns,
         'runs_completed': agg.evaluations,
         'runs_not_started_before_budget': nruns - agg.evaluations,
